@@ -75,6 +75,12 @@ def run_one(job):
         ws.rmws(w)
 
 
+def normhex(h):
+    """a name printed by rt (hex of its bytes) as the path it denotes: `d/./s/e` is `d/s/e`"""
+    import posixpath
+    return None if h is None else posixpath.normpath(bytes.fromhex(h)).hex()
+
+
 def check_scenarios(prop, tier):
     res = Result(prop, tier)
     work = scratch(prop)
@@ -145,7 +151,7 @@ def check_scenarios(prop, tier):
                         why = None
                         if r.get('status') != 'ok' or r.get('status2') != 'ok':
                             why = 'is not accepted by the parser (%s / %s)' % (r.get('status'), r.get('status2'))
-                        elif not r['p1'] or any(want not in (fp['old'], fp['new']) for fp in r['p1']):
+                        elif not r['p1'] or any(want not in (normhex(fp['old']), normhex(fp['new'])) for fp in r['p1']):
                             why = 'does not name the file it belongs to'
                         elif r['w1'] != r['w2'] or p_text.same_c12(r['p1'], r['p2']):
                             why = 'is not a fixed point of write/parse'
@@ -551,6 +557,16 @@ def twin_one(job):
             for p, f in sc['tree0'].items():
                 if f['ex']:
                     os.chmod(os.path.join(w, p), 0o444 if f['mode'] == '644' else 0o555)
+        if threads == 2 and not loader:
+            # one patched file is a symbolic link to a file that no patch names (and that the twin shares): the push
+            # replaces the link, it never writes through it
+            for p, f in sorted(sc['tree0'].items()):
+                if f['ex']:
+                    cp = scen.conc(p)
+                    real = os.path.join(w, 'zz', 'real.target')
+                    os.rename(os.path.join(w, cp), real)
+                    os.symlink(os.path.relpath(real, os.path.dirname(os.path.join(w, cp))), os.path.join(w, cp))
+                    break
         subprocess.run(['cp', '-al', w, twin], check=True)
         named = set()
         for pt in sc['series']:
